@@ -2,6 +2,7 @@ package main
 
 import (
 	"fmt"
+	"go/token"
 	"go/types"
 	"sort"
 	"strings"
@@ -34,7 +35,73 @@ type emission struct {
 }
 
 // bufferEmissions lists, in program order, the writes into local buffer buf.
+// foldHexLookups rewrites the hand-written two-digit hex escape
+//
+//	b.WriteByte(hexdigits[c>>4]); b.WriteByte(hexdigits[c&15])
+//
+// (hexdigits a constant "0123456789abcdef" or its upper-case form), optionally preceded by a literal
+// write in the same block, as the equivalent Fprintf emission with verb %02x / %02X on c.
+func foldHexLookups(ems []emission) []emission {
+	nibble := func(e emission) (v ssa.Value, hi bool, upper bool, ok bool) {
+		if e.Kind != "dyn" || len(e.Args) != 1 {
+			return nil, false, false, false
+		}
+		ix, isIx := e.Args[0].(*ssa.Index)
+		if !isIx {
+			return nil, false, false, false
+		}
+		k, isK := constString(ix.X)
+		if !isK || (k != "0123456789abcdef" && k != "0123456789ABCDEF") {
+			return nil, false, false, false
+		}
+		idx := ix.Index
+		if cv, isC := idx.(*ssa.Convert); isC {
+			idx = cv.X
+		}
+		bo, isBo := idx.(*ssa.BinOp)
+		if !isBo {
+			return nil, false, false, false
+		}
+		kv, isKv := constInt(bo.Y)
+		if !isKv {
+			return nil, false, false, false
+		}
+		switch {
+		case bo.Op == token.SHR && kv == 4:
+			return bo.X, true, k[10] == 'A', true
+		case bo.Op == token.AND && kv == 15:
+			return bo.X, false, k[10] == 'A', true
+		}
+		return nil, false, false, false
+	}
+	var out []emission
+	for i := 0; i < len(ems); i++ {
+		if i+1 < len(ems) && ems[i].Call.Block() == ems[i+1].Call.Block() {
+			v1, hi1, up1, ok1 := nibble(ems[i])
+			v2, hi2, up2, ok2 := nibble(ems[i+1])
+			if ok1 && ok2 && hi1 && !hi2 && v1 == v2 && up1 == up2 {
+				verb := "%02x"
+				if up1 {
+					verb = "%02X"
+				}
+				e := emission{Call: ems[i].Call, Kind: "fmt", Pieces: []string{"", ""}, Verbs: []string{verb}, Args: []ssa.Value{v1}}
+				if n := len(out); n > 0 && out[n-1].Kind == "lit" && out[n-1].Call.Block() == ems[i].Call.Block() {
+					e.Pieces[0] = out[n-1].Lit
+					e.Call = out[n-1].Call
+					out = out[:n-1]
+				}
+				out = append(out, e)
+				i++
+				continue
+			}
+		}
+		out = append(out, ems[i])
+	}
+	return out
+}
+
 func bufferEmissions(fn *ssa.Function, buf ssa.Value) (ems []emission, problems []string) {
+	defer func() { ems = foldHexLookups(ems) }()
 	isBuf := func(v ssa.Value) bool {
 		if v == buf {
 			return true
